@@ -8,6 +8,15 @@ ops:
                                          <zone> only selects the time.Location of the reading (ignored here)
 impl answer:  "out=<ns> ref=<ns> pts=<refPTS>"   (ns since the zero time.Time; anchor read from the struct)
               | "panic"
+
+round 2 — integration sites, one whole scenario per op line (run in a testing/synctest bubble):
+  aa <rate> <tok>…                       always-available stream (stream.Stream + SubStream, Opus, <rate> = 48000)
+  hls <codec> <trackRate> <outRate> <abs> <tok>…   hls.ToStream with one track
+     tokens: w<ns> sleep, j<ns> wall-clock jump, on / off publisher (aa), p<pts> frame with that timestamp
+impl answer:  "n=<k> <now>,<pts>,<ntp>,<flag> …"  one entry per frame handed to a stream reader
+model answer: the same entries with the absolute timestamp recomputed by the estimator model, fed with what the
+  site must feed it: the outgoing frame timestamp at the outgoing rate (aa) / the track timestamp at the track
+  rate, and the frame timestamp rescaled by the C24 helper (hls).
 -/
 
 structure D where
@@ -33,8 +42,69 @@ def parseImpl (impl : String) : Option (Option (Int × Int × Int)) :=
     pure (some (o, r, p))
   | _ => none
 
+structure U where
+  now : Int
+  pts : Int
+  ntp : Int
+  flag : String
+
+def parseUnits (impl : String) : Option (List U) :=
+  match words impl with
+  | n :: rest =>
+    if !n.startsWith "n=" then none else
+    rest.mapM fun w => match w.splitOn "," with
+      | [a, b, c, f] => do pure { now := ← a.toInt?, pts := ← b.toInt?, ntp := ← c.toInt?, flag := f }
+      | _ => none
+  | [] => none
+
+def fmtUnits (us : List U) : String :=
+  " ".intercalate (s!"n={us.length}" :: us.map fun u => s!"{u.now},{u.pts},{u.ntp},{u.flag}")
+
+def obsVerdict (rOut tol : Int) (tr : List (Bool × Int × Int × Int)) : String :=
+  match obsRun rOut tol {} 0 tr with
+  | none => "ok"
+  | some (i, e) => s!"FAIL frame {i}: {e}"
+
+/-- pts of the `p<pts>` tokens, in order -/
+def ptsTokens (toks : List String) : List Int :=
+  toks.filterMap fun t => if t.startsWith "p" then (t.drop 1).toString.toInt? else none
+
+def stepAA (rate : Int) (impl : String) : DrvOut :=
+  match parseUnits impl with
+  | none => { model := "-", spec := "FAIL unparsable implementation answer" }
+  | some us =>
+    -- the estimator must be fed with the outgoing frame timestamp
+    let (_, ms) := us.foldl (fun (acc : St × List U) u =>
+      let (st', o) := step rate acc.1 u.now u.pts
+      (st', acc.2 ++ [{ u with ntp := o.getD 0 }])) (({} : St), [])
+    { model := fmtUnits ms,
+      spec := obsVerdict rate (obsTol rate rate) (us.map fun u => (true, u.now, u.pts, u.ntp)) }
+
+def stepHLS (rt ro : Int) (toks : List String) (impl : String) : DrvOut :=
+  match parseUnits impl with
+  | none => { model := "-", spec := "FAIL unparsable implementation answer" }
+  | some us =>
+    let tps := ptsTokens toks
+    let (_, ms) := (us.zip tps).foldl (fun (acc : St × List U) (u, tp) =>
+      let (st', o) := step rt acc.1 u.now tp
+      let outPts := (MtxVerif.C24.muldiv tp ro rt).getD 0
+      (st', acc.2 ++ [{ u with pts := outPts, ntp := o.getD 0 }])) (({} : St), [])
+    let model := if us.length = tps.length then fmtUnits ms else s!"expected {tps.length} frames"
+    { model,
+      spec := obsVerdict ro (obsTol ro rt)
+        ((us.zip (tps ++ List.replicate us.length 0)).map fun (u, tp) =>
+          (ptsSmall tp && MtxVerif.C24.rateOK rt, u.now, u.pts, u.ntp)) }
+
 def step' (d : D) (op impl : String) : D × DrvOut :=
   match words op with
+  | "aa" :: rate :: _ =>
+    match rate.toInt? with
+    | some r => (d, stepAA r impl)
+    | none => (d, { model := "bad-op" })
+  | "hls" :: _ :: rt :: ro :: _ :: toks =>
+    match rt.toInt?, ro.toInt? with
+    | some rt, some ro => (d, stepHLS rt ro toks impl)
+    | _, _ => (d, { model := "bad-op" })
   | ["reset", r] =>
     match r.toInt? with
     | some r => ({ rate := r }, { model := "ok" })
